@@ -205,6 +205,20 @@ func (b *bmcSys) outcomeSpecs(l *bloc) []*outcome {
 	case opWgWait:
 		w := b.wgVar(l.wgKey)
 		add(&outcome{name: "wg.wait", chanG: f.Eq(w, f.IntC(0))})
+	case opMuLock:
+		w, r := b.wgVar(l.wgKey), b.wgVar(l.wgKey+".r")
+		add(&outcome{name: "lock", chanG: f.And(f.Eq(w, f.IntC(0)), f.Eq(r, f.IntC(0))), chanUpd: map[*term.T]*term.T{w: f.IntC(1)}})
+	case opMuUnlock:
+		w := b.wgVar(l.wgKey)
+		add(&outcome{name: "unlock", chanG: f.Eq(w, f.IntC(1)), chanUpd: map[*term.T]*term.T{w: f.IntC(0)}})
+		add(&outcome{name: "unlock-unlocked", chanG: f.Not(f.Eq(w, f.IntC(1))), panicMsg: "sync: unlock of unlocked mutex"})
+	case opMuRLock:
+		w, r := b.wgVar(l.wgKey), b.wgVar(l.wgKey+".r")
+		add(&outcome{name: "rlock", chanG: f.Eq(w, f.IntC(0)), chanUpd: map[*term.T]*term.T{r: f.IAdd(r, f.IntC(1))}})
+	case opMuRUnlock:
+		r := b.wgVar(l.wgKey + ".r")
+		add(&outcome{name: "runlock", chanG: f.ILt(f.IntC(0), r), chanUpd: map[*term.T]*term.T{r: f.ISub(r, f.IntC(1))}})
+		add(&outcome{name: "runlock-unlocked", chanG: f.ILe(r, f.IntC(0)), panicMsg: "sync: RUnlock of unlocked RWMutex"})
 	case opSleep:
 		b.nowUsed = true
 		add(&outcome{name: "wake", chanG: f.ULe(l.proc.sleepVar(b), b.now), clock: true})
@@ -466,6 +480,9 @@ func (t *btrans) absorb(o *outcome, p *bpath, sub func(*term.T) *term.T) {
 		t.writes[k] = true
 	}
 	if o.loc.wgKey != "" {
+		if o.loc.kind >= opMuLock && o.loc.kind <= opMuRUnlock {
+			t.wgs[o.loc.wgKey+".r"] = true
+		}
 		t.wgs[o.loc.wgKey] = true
 	}
 	if o.clock {
